@@ -89,7 +89,9 @@ impl Program {
 
     pub fn link(&mut self) -> (Address, Arc<Vec<Error>>, Arc<Vec<Error>>) {
         match self.link.last() {
-            Some(Opcode::End) => {}
+            // A closing END statement serves as the final END, unless something branches
+            // to the address behind it: that must not run into the direct-mode code.
+            Some(Opcode::End) if !self.link.has_symbol_at_end() => {}
             _ => {
                 if let Err(error) = self.link.push(Opcode::End) {
                     Arc::make_mut(&mut self.errors).push(error);
